@@ -171,6 +171,25 @@ def _patch_process_wide(tm):
             return tm.sleep(d)
         return _REAL_SLEEP(d)
     _time.sleep = sleep
+
+    # A class of the tree under test that SUBCLASSES queue.Queue / threading.Condition etc. was
+    # created at import time on the real base class; its inherited code then runs on simulated
+    # locks and conditions (Queue.__init__ looks threading.Lock/Condition up when called) but
+    # computes its timeouts with the clock the module bound at import (`from time import monotonic
+    # as time`).  Give those modules the simulated clock too, or timeouts would depend on real
+    # elapsed microseconds.
+    real_mono = _time.monotonic
+
+    def mono():
+        from .core import current_sim
+        s = current_sim()
+        if s is not None and s.active and s.in_sim_thread():
+            return tm.monotonic()
+        return real_mono()
+    if hasattr(_q, 'time'):
+        _q.time = mono
+    if hasattr(_th, '_time'):
+        _th._time = mono
     cft = sys.modules.get('concurrent.futures.thread')
     if cft is not None and hasattr(cft, '_global_shutdown_lock'):
         # created at import time as a real lock; submit() performs queue operations (yield
